@@ -728,9 +728,82 @@ class Engine:
             n *= 3
         rng = random.Random(self.seed * 7919 + _stable_hash(c.name))
         asgs = [self.sample_assignment(specs, rng) for _ in range(n)]
+        if native_only:
+            # bounded stand-in: bias half as many more samples towards the
+            # corners of the declared domain (bounds, zero)
+            rng.edge = 0.6
+            asgs += [self.sample_assignment(specs, rng) for _ in range(n)]
+            # and, where the precondition is not a box, let the solver
+            # complete partially pinned random points into models of it
+            if c.requires:
+                try:
+                    asgs += self._solver_samples(c, cfg, specs, n, rng)
+                except (Unsupported, PyRaise, z3.Z3Exception):
+                    pass
         clauses = [t for (_l, t) in c.ensures]
         jobs = [self.job_for(c, specs, a, clauses) for a in asgs]
         self.pending_cross.append((c, cfg, specs, paths, asgs, jobs))
+
+    def _solver_samples(self, c, cfg, specs, n, rng):
+        """inputs that satisfy `requires`: random targets for a random subset
+        of the input leaves are completed by the solver"""
+        it = self.new_interp()
+
+        def run(ctx):
+            pr, _B = self._symbolic_run(it, c, specs, ctx)
+            if not ctx.feasible(z3.BoolVal(True)):
+                raise PathAbort()
+            return pr
+        paths = self.explore(it, run)
+        out = []
+        if not paths:
+            return out
+
+        def val(const, v):
+            if z3.is_bool(const):
+                return z3.BoolVal(bool(v))
+            if z3.is_int(const):
+                return z3.IntVal(int(v))
+            return z3.RealVal(str(Fraction(repr(float(v)))))
+        t_end = time.time() + 40
+        for k in range(n):
+            if time.time() > t_end:
+                break
+            pr = paths[k % len(paths)]
+            base = self.sample_assignment(specs, rng)
+            s = z3.Solver()
+            s.set('timeout', 1500)
+            for p in pr.ctx.all_constraints():
+                s.add(p)
+            pins = {}
+            for name, (const, _sp) in pr.leaves.items():
+                v = base.get(name)
+                if isinstance(v, (bool, int, float)) and rng.random() < 0.7:
+                    lit = z3.Bool('pin!%d' % len(pins))
+                    s.add(z3.Implies(lit, const == val(const, v)))
+                    pins[lit] = name
+            active = list(pins)
+            m = None
+            for _try in range(6):
+                r = s.check(*active)
+                if r == z3.sat:
+                    m = s.model()
+                    break
+                if r == z3.unsat:
+                    core = set(str(x) for x in s.unsat_core())
+                    if not core:
+                        break
+                    drop = rng.choice(sorted(core))
+                    active = [a for a in active if str(a) != drop]
+                else:
+                    active = active[:len(active) // 2]
+            if m is None:
+                continue
+            a = dict(base)
+            a.update(model_assignment(m, pr.leaves,
+                                      getattr(pr, 'seq_leaves', None), None))
+            out.append(a)
+        return out
 
     def finish_cross(self):
         """one native batch for all functions under contract"""
